@@ -3,7 +3,8 @@
     existing parent that is a directory. *)
 From stdpp Require Import gmap list.
 From Coq Require Import NArith ZArith.
-From VFS Require Import Core.Types Core.Calls Base.MemFS Proofs.MemProofs Proofs.MemCalls.
+From VFS Require Import Core.Types Core.Prog Core.Calls Spec.Tree Base.MemFS Base.Handles Base.Store Layer.VfsPath Layer.Overlay
+  Proofs.MemProofs Proofs.MemCalls Proofs.ConcProofs Proofs.OvlProofs Proofs.OvlDeep.
 
 Notation mstate := (gmap (list (list N)) memfile).
 
@@ -45,6 +46,38 @@ Proof.
   apply mem_step_wf; [apply mem_step_wf; [apply wf_new|exact I]|exact I].
 Qed.
 
+(** ** through an OverlayFS over two MemoryFS layers: the UNION the overlay shows stays a tree.
+    [view_tree s0 s1]: every entry the overlay shows (in the caller's namespace) has a parent that it shows
+    as a directory.  create_dir / create_file on a path that is not shown and remove_file on a shown file -
+    at any depth, for all layer contents, the parent chain possibly in the lower layer only - succeed and
+    keep that invariant (and the write layer well formed).  Hypotheses as in the C09 theorems these are
+    corollaries of; [no_collision] marks the boundary of finding D28.  (remove_file on a lower-layer
+    DIRECTORY is finding D15: it breaks this invariant, and is pinned by an existing test.) *)
+Theorem C03_overlay_create_dir_keeps_tree : forall lg ft (s0 s1 : mstate) hs (p : path),
+  wf s0 -> p <> [] -> reachable s0 s1 p -> view s0 s1 p = None ->
+  (forall g, s0 !! whiteout_path (v0, []) p = Some g -> f_type g = File) -> view_tree s0 s1 ->
+  exists s0', run bhandler (ovl_impl (v0, []) [(v1, [])] (CCreateDir p)) (mstore2 s0 s1 hs lg ft) = (mstore2 s0' s1 hs lg ft, Ok tt) /\
+              wf s0' /\ view_tree s0' s1.
+Proof. exact create_dir_keeps_tree. Qed.
+
+Theorem C03_overlay_create_file_keeps_tree : forall lg ft (s0 s1 : mstate) hs (p : path),
+  wf s0 -> p <> [] -> reachable s0 s1 p -> view s0 s1 p = None ->
+  (forall g, s0 !! whiteout_path (v0, []) p = Some g -> f_type g = File) -> view_tree s0 s1 ->
+  exists s0', run bhandler (ovl_impl (v0, []) [(v1, [])] (CCreateFile p)) (mstore2 s0 s1 hs lg ft) =
+                (mstore2 s0' s1 (hs ++ [HMemWriter 0 p [] 0]) lg ft, Ok (length hs)) /\
+              wf s0' /\ view_tree s0' s1.
+Proof. exact create_file_keeps_tree. Qed.
+
+Theorem C03_overlay_remove_file_keeps_tree : forall lg ft (s0 s1 : mstate) hs (p : path) (b : list N),
+  wf s0 -> p <> [] -> user_path p -> no_collision p ->
+  (is_Some (s0 !! p) -> s0 !! whiteout_path (v0, []) p = None) ->
+  view s0 s1 p = Some (NFile b) ->
+  Forall (not_file s0) (prefixes (removelast (whiteout_path (v0, []) p))) -> view_tree s0 s1 ->
+  exists s0', run bhandler (ovl_impl (v0, []) [(v1, [])] (CRemoveFile p)) (mstore2 s0 s1 hs lg ft) =
+                (mstore2 s0' s1 (hs ++ [HClosed]) lg ft, Ok tt) /\
+              wf s0' /\ view_tree s0' s1.
+Proof. exact remove_file_keeps_tree. Qed.
+
 Print Assumptions C03_initial.
 Print Assumptions C03_sections.
 Print Assumptions C03_trait_calls.
@@ -52,3 +85,6 @@ Print Assumptions C03_publish.
 Print Assumptions C03_file_is_leaf.
 Print Assumptions C03_listed_by_parent.
 Print Assumptions C03_example.
+Print Assumptions C03_overlay_create_dir_keeps_tree.
+Print Assumptions C03_overlay_create_file_keeps_tree.
+Print Assumptions C03_overlay_remove_file_keeps_tree.
